@@ -408,6 +408,25 @@ func (s *sqlStore) exists(serviceID string, credentialSubjectID string, presenta
 	return count > 0, nil
 }
 
+// contains checks whether exactly this presentation (same ID and same contents) of the given subject is registered on a service.
+// The server allows a subject to use the ID of a superseded or retracted presentation again,
+// so the ID alone does not tell whether the local copy is the presentation that is on the server's list.
+func (s *sqlStore) contains(serviceID string, credentialSubjectID string, presentation vc.VerifiablePresentation) (bool, error) {
+	if presentation.ID == nil {
+		return false, nil
+	}
+	var rows []presentationRecord
+	if err := s.db.Find(&rows, "service_id = ? AND credential_subject_id = ? AND presentation_id = ?", serviceID, credentialSubjectID, presentation.ID.String()).Error; err != nil {
+		return false, fmt.Errorf("check presentation existence: %w", err)
+	}
+	for _, row := range rows {
+		if row.PresentationRaw == presentation.Raw() {
+			return true, nil
+		}
+	}
+	return false, nil
+}
+
 func (s *sqlStore) prune() error {
 	num, err := s.removeExpired()
 	if err != nil {
